@@ -74,6 +74,67 @@ def _finalize(x):
     return "" if x is None else x
 
 
+class Translations:
+    """Harness-side translations object (docs/extensions.rst: anything with gettext /
+    ngettext [/ pgettext / npgettext], or ugettext / ungettext).  The translated text
+    keeps every %(name)s placeholder of the message ('dup': repeats them, as a translation
+    may), and with 'markup' brings markup of its own - translation strings count as
+    template text, so that markup is legitimately raw and never sits between two copies of
+    a data nonce."""
+
+    def __init__(self, markup=False, dup=False):
+        self.markup, self.dup = markup, dup
+
+    def _t(self, s):
+        t = "tr " + s
+        if self.dup:
+            t += " ~ " + s
+        return "<i>" + t + "</i>" if self.markup else t
+
+    def gettext(self, s):
+        return self._t(s)
+
+    def ngettext(self, s, p, n):
+        return self._t(s if n == 1 else p)
+
+    def pgettext(self, c, s):
+        return self._t(s)
+
+    def npgettext(self, c, s, p, n):
+        return self._t(s if n == 1 else p)
+
+
+class UTranslations(Translations):
+    """The same with the ugettext / ungettext spelling that install_gettext_translations prefers."""
+
+    def ugettext(self, s):
+        return self._t(s)
+
+    def ungettext(self, s, p, n):
+        return self._t(s if n == 1 else p)
+
+    def gettext(self, s):  # pragma: no cover - must not be preferred
+        raise AssertionError("ugettext is documented to be preferred")
+
+    ngettext = gettext
+
+
+def install_i18n(env, i):
+    ns = bool(i.get("newstyle"))
+    if i.get("trim_policy"):
+        env.policies["ext.i18n.trimmed"] = True
+    how = i.get("install", "null")
+    if how == "null":
+        env.install_null_translations(newstyle=ns)
+        return
+    tr = (UTranslations if how == "uobject" else Translations)(bool(i.get("markup")), bool(i.get("dup")))
+    if how in ("object", "uobject"):
+        env.install_gettext_translations(tr, newstyle=ns)
+    else:
+        env.install_gettext_callables(tr.gettext, tr.ngettext, newstyle=ns, pgettext=tr.pgettext,
+                                      npgettext=tr.npgettext)
+
+
 def build_env(case, files):
     from jinja2 import DictLoader, Environment, select_autoescape
     from jinja2.sandbox import SandboxedEnvironment
@@ -92,7 +153,13 @@ def build_env(case, files):
     if e.get("finalize"):
         kw["finalize"] = _finalize
     cls = SandboxedEnvironment if e.get("sandbox") else Environment
-    return cls(**kw)
+    i18n = case.get("i18n")
+    if i18n:
+        kw["extensions"] = ["jinja2.ext.i18n"]
+    env = cls(**kw)
+    if i18n:
+        install_i18n(env, i18n)
+    return env
 
 
 def execute(case):
@@ -256,6 +323,12 @@ def cands_case(case, target):
             yield dict(case, env=dict(env, **{k: dflt}))
     if case.get("extends"):
         yield dict(case, extends=False)
+    i18n = case.get("i18n")
+    if i18n:
+        yield dict(case, i18n=None)
+        for k, dflt in (("install", "null"), ("markup", False), ("dup", False), ("trim_policy", False)):
+            if i18n.get(k, dflt) != dflt:
+                yield dict(case, i18n=dict(i18n, **{k: dflt}))
     if case["mode"] == "selector":
         yield dict(case, mode="static")
     if case["mode"] == "runtime":
@@ -294,8 +367,15 @@ def cands_tree(case, target):
                     if len(lst) > 1 and not contains_nonce(st, "s", data, target):
                         yield _with_unit(case, ui, IR.set_at(u, path, lst[:j] + lst[j + 1:]))
                 for j, st in enumerate(lst):
+                    # a statement that carries the target datum too, but is not the one leaking it
+                    if len(lst) > 1 and contains_nonce(st, "s", data, target):
+                        yield _with_unit(case, ui, IR.set_at(u, path, lst[:j] + lst[j + 1:]))
+                for j, st in enumerate(lst):
                     for repl in stmt_replacements(st):
                         yield _with_unit(case, ui, IR.set_at(u, path, lst[:j] + repl + lst[j + 1:]))
+                    if st[0] == "trans":
+                        for simpler in trans_simplifications(st, data, target):
+                            yield _with_unit(case, ui, IR.set_at(u, path, lst[:j] + [simpler] + lst[j + 1:]))
                 continue
             if so == "s":
                 continue
@@ -330,9 +410,57 @@ def cands_tree(case, target):
                 last = args[-1]
                 if not contains_nonce(last[1], "E", data, target):
                     yield _with_unit(case, ui, IR.set_at(u, path, [node[0], node[1], node[2], args[:-1]]))
+            if node[0] == "cap" and node[1] == "fsetblock":
+                yield _with_unit(case, ui, IR.set_at(u, path, ["cap", "setblock", node[4]]))
+                yield _with_unit(case, ui, IR.set_at(u, path, ["f", node[2], ["cap", "setblock", node[4]], node[3]]))
+                yield _with_unit(case, ui, IR.set_at(u, path, ["f", node[2], NEUTRAL_M, node[3]]))
+                if node[3] and not contains_nonce(node[3][-1][1], "E", data, target):
+                    yield _with_unit(case, ui, IR.set_at(u, path, node[:3] + [node[3][:-1], node[4]]))
+            if node[0] == "gt":
+                for simpler in gt_simplifications(node, data, target):
+                    yield _with_unit(case, ui, IR.set_at(u, path, simpler))
             if node[0] == "lit" and target is not None and target in node[1]:
                 nm = "dz"
                 yield dict(_with_unit(case, ui, IR.set_at(u, path, ["d", nm])), data=dict(data, **{nm: node[1]}))
+
+
+def gt_simplifications(node, data, target):
+    _, func, opts, args, num = node
+    for j, (_, a) in enumerate(args):
+        if not contains_nonce(a, "E", data, target):
+            yield ["gt", func, opts, args[:j] + args[j + 1:], num]
+    if func in ("ngettext", "npgettext") and not (num is not None and contains_nonce(num, "E", data, target)):
+        yield ["gt", {"ngettext": "gettext", "npgettext": "pgettext"}[func], opts, args, None]
+    if func in ("pgettext", "npgettext"):
+        yield ["gt", {"pgettext": "gettext", "npgettext": "ngettext"}[func], dict(opts, ctx=None), args, num]
+    if func == "_":
+        yield ["gt", "gettext", opts, args, num]
+    if opts.get("old") == "mod":
+        yield ["gt", func, dict(opts, old="format"), args, num]
+    if num is not None and num[0] != "num":
+        yield ["gt", func, opts, args, ["num", 2]]
+
+
+def trans_simplifications(st, data, target):
+    _, opts, args, count = st
+    for j, (_, a) in enumerate(args):
+        if not contains_nonce(a, "E", data, target):
+            yield ["trans", opts, args[:j] + args[j + 1:], count]
+    if count is not None and not contains_nonce(count, "E", data, target):
+        yield ["trans", opts, args, None]
+        if count[0] != "num":
+            yield ["trans", opts, args, ["num", 2]]
+    for k, dflt in (("ctx", None), ("trim", None), ("ws", False), ("pl_explicit", False), ("cname", "num")):
+        if opts.get(k, dflt) != dflt:
+            yield ["trans", dict(opts, **{k: dflt}), args, count]
+    for j, (nm, a) in enumerate(args):
+        if nm is None:
+            yield ["trans", opts, args[:j] + [["a0", a]] + args[j + 1:], count]
+    # the same variables through the equivalent function call
+    named = [[nm or f"a{j}", a] for j, (nm, a) in enumerate(args)]
+    func = ("np" if opts.get("ctx") is not None else "n") + "gettext" if count is not None else \
+        ("pgettext" if opts.get("ctx") is not None else "gettext")
+    yield ["out", ["gt", func, {"ctx": opts.get("ctx"), "old": "format"}, named, count]]
 
 
 def _target_string(case, target):
@@ -359,6 +487,8 @@ def stmt_replacements(st):
         yield [["block", st[1][2]]]
     if t == "out" and st[1][0] == "cap" and IR.SCHEMA[IR.tag_of(st[1])][0] == "S":
         yield list(st[1][2])
+    if t == "out" and st[1][0] == "cap" and st[1][1] == "fsetblock":
+        yield list(st[1][4])
     if t == "fblock":
         yield [["out", ["f", st[1], NEUTRAL_M, st[2]]]]
         yield [["out", ["f", st[1], ["cap", "setblock", st[3]], st[2]]]]
@@ -376,6 +506,7 @@ def stmt_replacements(st):
     if t == "forkv":
         yield [["out", subst_hole(st[3], ["idx", st[1], "k"])]]
         yield [["out", subst_hole(st[4], ["idx", st[1], "v"])]]
+        yield [["out", subst_hole(st[4], ["idx", st[1], "k"])]]     # the VALUE stored under "k"
     if t == "xblock" and st[2] is not None:
         yield [["xblock", st[1], None]]
         if st[2][0] == "own":
@@ -429,6 +560,57 @@ def find_leaf(case, target):
     return None, None
 
 
+# constructs that bind a value to a name and hand it to a 'post' expression over ['hole']:
+# tag -> (source field index, [post field paths])
+BINDERS = {"foreach": (1, [(2,)]), "forkv": (1, [(3,), (4,)]), "callarg": (1, [(2,)]),
+           "callblock": (1, [(2,)]), "cap.macro_arg": (2, [(3,)]), "xblock": (1, [(2, 1)])}
+
+
+def hole_path(e, path=()):
+    if e[0] == "hole":
+        return path
+    for step, ch, so in IR.children(e):
+        if so == "E":
+            r = hole_path(ch, path + step)
+            if r is not None:
+                return r
+    return None
+
+
+def post_descriptors(node, step):
+    """The value entering `node` through its source field goes on through the node's post
+    expression(s): descriptors of the constructs between the post's root and its hole."""
+    t = IR.tag_of(node)
+    if t not in BINDERS or step[0] != BINDERS[t][0]:
+        return []
+    if t == "xblock" and not (node[2] is not None and node[2][0] == "super"):
+        return []
+    out = []
+    for pp in BINDERS[t][1]:
+        try:
+            post = IR.get_at(node, pp)
+        except (IndexError, TypeError):
+            continue
+        if not isinstance(post, list) or not post or post[0] in ("own", "hole"):
+            continue
+        hp = hole_path(post)
+        if not hp:
+            continue
+        cur, i = post, 0
+        while i < len(hp):
+            for st, ch, so in IR.children(cur):
+                if tuple(hp[i:i + len(st)]) == st:
+                    d = describe_step(cur, st)
+                    if d:
+                        out.append(d)
+                    cur = ch
+                    i += len(st)
+                    break
+            else:
+                break
+    return out
+
+
 def describe_step(node, step):
     """Descriptor of going from node into the child reached by `step`."""
     t = IR.tag_of(node)
@@ -441,6 +623,16 @@ def describe_step(node, step):
         if i == 2:
             return f"filter-block:{node[1]}/arg:{_argname(node[1], node[2], step[1])}"
         return f"filter-block:{node[1]}"
+    if t == "trans":
+        opts = node[1]
+        name = "trans-block" + (":context" if opts.get("ctx") is not None else "") + \
+            (":pluralize" if node[3] is not None else "") + (":" + opts["trim"] if opts.get("trim") else "")
+        if i == 3:
+            return name + "/count"
+        return name + ("/implicit-variable" if node[2][step[1]][0] is None else "/variable")
+    if t == "gt":
+        return f"call:{node[1]}" + ("/count" if i == 4 else "/variable") + \
+            (":%-formatted" if node[2].get("old") == "mod" else "")
     if t == "callblock":
         return "call-block/caller()" if i == 1 else "call-block/macro-body"
     if t == "callarg":
@@ -484,6 +676,10 @@ def describe_step(node, step):
         k = node[1]
         if k == "macro_arg":
             return f"macro-argument:{node[4]}" if i == 2 else "macro-body"
+        if k == "fsetblock":
+            if i == 3:
+                return f"set-block-filter:{node[2]}/arg:{_argname(node[2], node[3], step[1])}"
+            return f"set-block-filter:{node[2]}"
         return {"setblock": "set-block", "setexpr": "set", "macro": "macro", "import_macro": "imported-macro",
                 "import_var": "imported-variable", "selfblock": "self.block()", "joiner": "joiner",
                 "nsattr": "namespace-attribute", "nsobj": "namespace-object"}[k]
@@ -512,6 +708,14 @@ def mechanism_key(case, target):
             parts.append("env:" + ("unoptimized" if k == "optimized" else k))
     if case.get("extends"):
         parts.append("extends")
+    i18n = case.get("i18n")
+    if i18n:
+        parts.append("i18n:" + ("newstyle" if i18n.get("newstyle") else "oldstyle"))
+        if i18n.get("install", "null") != "null":
+            parts.append("translations:" + i18n["install"])
+        for k in ("markup", "dup", "trim_policy"):
+            if i18n.get(k):
+                parts.append("translations:" + k if k != "trim_policy" else "policy:ext.i18n.trimmed")
     if target is None:
         return "/".join(parts + ["unattributed"])
     ui, path = find_leaf(case, target)
@@ -529,6 +733,7 @@ def mechanism_key(case, target):
                     d = describe_step(node, step)
                     if d:
                         parts.append(d)
+                    parts.extend(post_descriptors(node, step))
                     node = ch
                     i += len(step)
                     break
@@ -541,24 +746,82 @@ def mechanism_key(case, target):
         parts.append("literal")
     if node[0] == "D" and any(isinstance(k, str) and target in k for k in case["data"].get(node[1], {})):
         parts.append("data-dict-key")
-    return collapse_key(case, parts)
+    return collapse_key(case, parts, target)
 
 
 BLOCKISH = ("block", "block/super()", "self.block()")
 
 
-def collapse_key(case, parts):
+def collapse_key(case, parts, target=None):
     """Families with one root cause get one key, so that a sibling filter /
     argument / block flavour is not reported as a new mechanism:
     * the minimal template still needs a block nested in an {% autoescape %}
       block (static or runtime flag, in place, via self.b() or super());
     * the leaking datum still passes through a {% filter %} block (body or
-      arguments): visit_FilterBlock writes the filter result unescaped."""
+      arguments): visit_FilterBlock writes the filter result unescaped;
+    * the leaking datum still passes through a filtered set block AND the probe
+      below observes the mechanism itself: the filter returned a value that is
+      not markup, carrying the datum raw, and the set block declared it safe.
+      Any other leak through a filtered set block (body not escaped before the
+      filter sees it, a markup-returning filter carrying raw data, ...) keeps
+      its full construct path as key and is reported as a new violation."""
     if case["mode"] == "runtime" and case.get("layout") == "file" and any(p in BLOCKISH for p in parts):
         return "autoescape-block/block-not-escaped"
     if any(p.startswith("filter-block:") for p in parts):
         return "filter-block:result-not-escaped"
+    if any(p.startswith("set-block-filter:") for p in parts) and target is not None \
+            and probe_set_block_filter(case, target):
+        return "set-block-filter:result-marked-safe"
     return "/".join(parts) or "output"
+
+
+def probe_set_block_filter(case, target):
+    """Harness-side wrappers around the filters that the case's filtered set blocks name
+    (env.filters entries, public API).  True iff some call returned a value WITHOUT
+    __html__ (not markup: under autoescape it has to be escaped when it is output) that
+    carries a raw metacharacter of the target datum, while no markup value handed to the
+    filter carried one - i.e. the data was still escaped / plain on the way in, and the only
+    thing that made it 'safe' is the set block's marking of the filter's plain result."""
+    import functools
+    import inspect
+
+    names = sorted({n[2] for u in case["units"] for _, n, so in IR.walk(u, "S")
+                    if so != "S" and n[0] == "cap" and n[1] == "fsetblock"})
+    if not names:
+        return False
+    files, main, rctx = IR.Renderer(case).render()
+    obs = []
+
+    def raw(x):
+        try:
+            return bool(O.leaks(str(x), {target})[0])
+        except Exception:
+            return False
+
+    def wrap(orig):
+        @functools.wraps(orig)
+        def w(*a, **k):
+            rv = orig(*a, **k)
+            if inspect.isawaitable(rv):
+                obs.append(None)
+                return rv
+            dirty_in = any(hasattr(x, "__html__") and raw(x) for x in list(a) + list(k.values()))
+            obs.append((dirty_in, hasattr(rv, "__html__"), raw(rv)))
+            return rv
+        return w
+
+    try:
+        env = build_env(case, files)
+        for nm in names:
+            if nm in env.filters:
+                env.filters[nm] = wrap(env.filters[nm])
+        _random.seed(case.get("rseed", 0))
+        env.get_template(main).render(**rctx)
+    except Exception:
+        return False
+    if not obs or any(o is None or o[0] for o in obs):
+        return False
+    return any((not is_markup) and is_raw for _, is_markup, is_raw in obs)
 
 
 def neutralise(case, target):
@@ -609,8 +872,21 @@ def analyse(ctx, case, report=True):
         ctx.count("xmlattr_key." + form)
         if O.key_passes_validation(k) and (O.escaped_form(k) + '="') in out:
             ctx.count("xmlattr_names_arrived_escaped")
+    i18n = case.get("i18n")
+    if i18n:
+        style = "newstyle" if i18n.get("newstyle") else "oldstyle"
+        ctx.count("i18n." + style)
+        ctx.count("i18n.install." + i18n.get("install", "null"))
+        for k in ("markup", "dup", "trim_policy"):
+            if i18n.get(k):
+                ctx.count("i18n." + k)
+        for kind, nonces in i18n_variable_nonces(case):
+            got = sum(1 for n in nonces if re.search(n + r"&(?:lt|gt|#34|#39);", out))
+            if got:
+                ctx.count(f"i18n_vars_arrived_escaped.{kind}.{style}", got)
+                ctx.count("i18n_vars_arrived_escaped", got)
     if arrived:
-        ctx.dist(sorted(files.items()))
+        ctx.dist(sorted(files.items()) + ([["i18n", sorted(i18n.items())]] if i18n else []))
     nfound = 0
     cur = case
     for _round in range(4):
@@ -640,6 +916,25 @@ def analyse(ctx, case, report=True):
     return nfound
 
 
+def i18n_variable_nonces(case):
+    """-> [(kind, nonces of the data/literal leaves under the variables of one trans block /
+    gettext-family call)], kind = 'trans' | 'trans:context' | 'call:<func>'"""
+    out = []
+    for u in case["units"]:
+        for _, n, so in IR.walk(u, "S"):
+            if so == "S" or n[0] not in ("trans", "gt"):
+                continue
+            found = set()
+            for _, a in (n[2] if n[0] == "trans" else n[3]):
+                for _, m, mso in IR.walk(a, "E"):
+                    if mso != "S":
+                        for s_ in IR.leaf_strings(m, case["data"]):
+                            found.update(re.findall(r"9[0-8]{4}", s_))
+            kind = ("trans:context" if n[1].get("ctx") is not None else "trans") if n[0] == "trans" else "call:" + n[1]
+            out.append((kind, sorted(found)))
+    return out
+
+
 def count_constructs(ctx, case, seen):
     for u in case["units"]:
         for _, n, so in IR.walk(u, "S"):
@@ -656,6 +951,25 @@ def count_constructs(ctx, case, seen):
                 seen.add(n[1])
                 ctx.count("filter." + n[1])
                 ctx.count("construct.fblock")
+            elif t == "cap.fsetblock":
+                seen.add(n[2])
+                ctx.count("filter." + n[2])
+                ctx.count("construct.cap.fsetblock")
+            elif t == "trans":
+                o = n[1]
+                ctx.count("construct.trans")
+                for nm, flag in (("context", o.get("ctx") is not None), ("pluralize", n[3] is not None),
+                                 ("trimmed", o.get("trim") == "trimmed"), ("notrimmed", o.get("trim") == "notrimmed"),
+                                 ("implicit_var", any(a[0] is None for a in n[2])),
+                                 ("explicit_var", any(a[0] is not None for a in n[2])),
+                                 ("no_var", not n[2])):
+                    if flag:
+                        ctx.count("trans." + nm)
+                if o.get("ctx") is not None and n[3] is None and n[2]:
+                    ctx.count("trans.context_singular_with_var")
+            elif t == "gt":
+                ctx.count("construct.gt")
+                ctx.count("gt." + n[1])
             elif t == "dictof":
                 ctx.count("construct.dictof." + n[1])
             elif t not in ("d", "lit", "klit", "num", "bool", "none", "hole", "var", "out", "text", "L", "D", "LD"):
@@ -672,6 +986,30 @@ FIXED = [
     {"mode": "selector", "extends": True,
      "units": [[["xblock", [["out", ["d", "d1"]]], ["super", ["bin", "~", ["hole"], ["lit", "94444'94444"]]]]]],
      "data": {"d1": "95555\"95555"}},
+    # every gettext-family function, new-style and old-style, as block and as call
+    # every gettext-family function and every trans flavour, new-style and old-style (one datum each)
+    {"mode": "static", "i18n": {"newstyle": True, "install": "callables"},
+     "data": {f"d{k}": f"961{k}1{m}961{k}1" for k, m in enumerate("<>'\"<>")},
+     "units": [[["trans", {"ctx": "ctx", "trim": None, "cname": "num", "ws": False}, [["a", ["d", "d0"]], [None, ["d", "d1"]]], None],
+                ["trans", {"ctx": "ctx", "trim": "trimmed", "cname": "n", "ws": True}, [["a", ["d", "d2"]]], ["num", 2]],
+                ["trans", {"ctx": None, "trim": None, "cname": "num", "ws": False}, [["a", ["d", "d3"]]], ["num", 1]],
+                ["trans", {"ctx": None, "trim": None, "cname": "num", "ws": False}, [[None, ["d", "d4"]]], None]]]},
+    {"mode": "runtime", "flag": "volatile", "layout": "stmt", "i18n": {"newstyle": True, "install": "null"},
+     "data": {f"d{k}": f"962{k}2>962{k}2" for k in range(5)},
+     "units": [[["out", ["gt", f, {"ctx": "ctx", "old": "format"}, [["a", ["d", f"d{k}"]]], ["num", 2]]]
+                for k, f in enumerate(IR.GT_FUNCS)]]},
+    {"mode": "selector", "i18n": {"newstyle": False, "install": "object", "markup": True, "dup": True},
+     "data": {f"d{k}": f"96{k // 9}{k % 9}3\"96{k // 9}{k % 9}3" for k in range(14)},
+     "units": [[["out", ["gt", f, {"ctx": "ctx", "old": o}, [["a", ["d", f"d{2 * k + j}"]]], ["num", 2]]]
+                for k, f in enumerate(IR.GT_FUNCS) for j, o in enumerate(("format", "mod"))] +
+               [["trans", {"ctx": c, "trim": None, "cname": "num", "ws": False}, [["a", ["d", f"d{10 + 2 * i + j}"]]], n]
+                for i, c in enumerate((None, "ctx")) for j, n in enumerate((None, ["num", 2]))]]},
+    # filtered set blocks (the striptags one is the recorded finding set-block-filter:result-marked-safe)
+    {"mode": "static", "data": {"d1": "96555<96555"},
+     "units": [[["out", ["cap", "fsetblock", "striptags", [], [["out", ["d", "d1"]]]]]]]},
+    {"mode": "static", "data": {"d1": "96666<96666", "d2": "96777>96777"},
+     "units": [[["out", ["cap", "fsetblock", "replace", [[None, ["klit", "ab"]], [None, ["d", "d2"]]],
+                         [["text", "ab "], ["out", ["d", "d1"]]]]]]]},
 ]
 
 
